@@ -6,11 +6,15 @@ RULE = ('Rect (any corner order; boundary points on a grid included), RoundedRec
         'sweep in (0,2pi], ranges crossing +-pi) x query points (40% near the boundary band, on rows/columns of special points) x accuracies 1e-10..1. '
         'On the implementation: closed-form area / perimeter / bounding box / winding vs the same quantities of the shape\'s own outline at fine '
         'tolerance, and vs the ideal shape computed independently (membership with a 1e-6*scale guard band). Closed forms also compared with the '
-        'Lean model (Rect, Triangle: exact rational model; others: Float model). non-trivial = distinct (shape, point set)')
+        'Lean model (Rect, Triangle: exact rational model; others: Float model). Ellipse::perimeter alone (C11E): radii 1e-3..1e4 x aspect 1..1e6 (log-uniform) x any '
+        'rotation x accuracy 1e-12..1 x size, accuracies equal/adjacent to the Kummer remainder bound (both sides of the series/AGM switch), zero radii, circles: '
+        'implementation == Float model bit for bit. non-trivial = distinct (shape, point set)')
 KERNEL_DEPS = [r'Rect\.(winding|area|perimeter|bounding_box|abs|center|width|height)', r'Affine\.(inverse|mul_Point|determinant|mul_Affine)',
                r'K2:Triangle\..*', r'K2:Circle\..*', r'K2:CircleSegment\.(area|perimeter|winding)', r'K2:Ellipse\.(area|winding|bounding_box|radii)', r'K2:Affine\.svd']
 UNPROVED = ['agreement of circle/ellipse/rounded-rect closed forms with the Bezier OUTLINE within tolerance (needs the C10 stretch theorem): compared',
-            'ellipse perimeter series (Kummer / AGM) bounds: compared against the outline length']
+            'ellipse perimeter: that the Kummer series / the AGM formula sum to the true perimeter, and the error bound |result - perimeter| <= accuracy of the AGM '
+            'branch (false as the code stands: it divides by the current a_n instead of the AGM limit, see Proofs/C11E.lean): compared against the outline length; '
+            'proved (C11E): AGM invariants and contraction, pass bound, tail bound / bracket of the returned sum, Kummer symmetry / circle / scaling / remainder constant']
 ASSUMPTIONS = ['Rect / Triangle / RoundedRect closed forms are proved equal to the ray-casting winding of the outline (polygons) resp. ideal-set membership']
 MAKERS = {}
 HEAVY_JUDGE = True
@@ -139,6 +143,83 @@ def closed_model(kind, params, pts, exact):
     return Case(line, 'IR' if exact else 'IF', judge, f'model-{kind}', 'corr-R' if exact else 'corr-F')
 
 
+def _py_radii0(rx, ry):
+    """`Ellipse::new(c, (rx, ry), 0.0).radii()` replayed in binary64 (rotation 0: `Affine::svd` of diag(|rx|, |ry|))"""
+    a2, d2 = abs(rx) * abs(rx), abs(ry) * abs(ry)
+    s1 = a2 + 0.0 + 0.0 + d2
+    t = a2 - 0.0 + 0.0 - d2
+    s2 = math.sqrt(t * t + 4.0 * (0.0 * 0.0))
+    return math.sqrt(0.5 * (s1 + s2)), math.sqrt(0.5 * (s1 - s2))
+
+
+def _py_kummer_range(x, y):
+    """`kummer_elliptic_perimeter_range` replayed in binary64 (`powi(7)` = (h*h2)*h4)"""
+    q = (x - y) / (x + y)
+    h = q * q
+    h2 = h * h
+    h4 = h2 * h2
+    return math.pi * 0.00101416479131503 * ((h * h2) * h4) * (x + y)
+
+
+@maker(MAKERS)
+def ellperim_model(cx, cy, rx, ry, rot, acc, stratum):
+    """`Ellipse::new((cx,cy),(rx,ry),rot).perimeter(acc)`: implementation == Float model bit for bit (the whole path: svd radii, finiteness
+    test, degenerate branch, Kummer series and its remainder bound, the AGM loop and its stopping rule).  For rotation 0 the exact (Rat)
+    evaluation of the same algorithm is compared as well: it may leave the loop one pass earlier/later or take the other side of the
+    Kummer/AGM switch, so the two values are within 1.1 x accuracy (+ 1e-9 x size for the rounding of the radii in `svd`)."""
+    line = f'ellipse.perimeter_full {H(cx, cy, rx, ry, rot, acc)}'
+    exact = (rot == 0.0)
+    size = max(abs(rx), abs(ry))
+
+    def judge(o):
+        i, f = o['I'][0], o['F'][0]
+        if engine_error(i, f):
+            return f'engine error {i} / {f}'
+        if not cmp_exact(i, f):
+            return f'CORR impl != model@Float (ellipse perimeter) impl={i} model={f}'
+        if exact:
+            r = o['R'][0]
+            if engine_error(r):
+                return f'engine error model@Rat {r}'
+            vi, vr = h2f(i), h2f(r)
+            if math.isnan(vi) or abs(vi - vr) > 1.1 * acc + 1e-9 * size:
+                return f'ellipse perimeter: impl {vi} vs exact evaluation of the same algorithm {vr} (accuracy {acc})'
+        return None
+    return Case(line, 'IFR' if exact else 'IF', judge, stratum, 'corr-F')
+
+
+def ellperim_cases(rng, n):
+    """radii 1e-3..1e4, aspect 1..1e6 (log-uniform), any rotation, accuracy 1e-12..1 x size; the Kummer/AGM switch; degenerate radii"""
+    for _ in range(n):
+        big = 10.0 ** rng.uniform(-3, 4)
+        asp = 10.0 ** (rng.uniform(0, 6) if rng.random() < 0.7 else rng.uniform(0, 1.5))
+        small = big / asp
+        rx, ry = (big, small) if rng.random() < 0.5 else (small, big)
+        if rng.random() < 0.2:
+            rx, ry = rng.choice([(rx, ry), (-rx, ry), (rx, -ry)])
+        rot = rng.choice([0.0, rng.uniform(-4, 4), rng.uniform(-4, 4), math.pi / 2, 1.0])
+        acc = 10.0 ** rng.uniform(-12, 0) * big
+        c = (rng.uniform(-10, 10), rng.uniform(-10, 10))
+        k = rng.random()
+        st = 'ellperim-generic'
+        if k < 0.04:
+            rx, st = 0.0, 'ellperim-degenerate'
+        elif k < 0.08:
+            ry, st = 0.0, 'ellperim-degenerate'
+        elif k < 0.09:
+            rx, ry, st = 0.0, 0.0, 'ellperim-degenerate'
+        elif k < 0.12:
+            ry, st = rx, 'ellperim-circle'
+        elif k < 0.4:
+            # accuracy equal / adjacent to the remainder bound of the radii the crate will see: both sides of `range <= accuracy`
+            X, Y = _py_radii0(rx, ry)
+            r = _py_kummer_range(X, Y) if Y > 0 else 0.0
+            if r >= 1e-12 * big:       # below that the switch lies outside the accuracy range of the property
+                rot, st = 0.0, 'ellperim-switch'
+                acc = rng.choice([r, math.nextafter(r, 0.0), math.nextafter(r, math.inf), r * (1 + 1e-15), r * (1 - 1e-15), r * (1 + 1e-3), r * (1 - 1e-3)])
+        yield ellperim_model(c[0], c[1], rx, ry, rot, acc, st)
+
+
 def near_boundary_points(rng, kind, p, sc, n):
     pts = []
     for _ in range(n):
@@ -242,6 +323,8 @@ def generate(rng, tier):
         pts = [(a[4] + rng.uniform(-4, 4), a[5] + rng.uniform(-4, 4)) for _ in range(8)]
         line = f'shape.full ellipse_aff {H(*a)} {H(1e-9, 1e-9)} {len(pts)} {H(*[c for q in pts for c in q])}'
         yield ellipse_affine(a, pts)
+    # Ellipse::perimeter against its model (C11E)
+    yield from ellperim_cases(rng, 600 if tier == 'quick' else 20000)
 
 
 @maker(MAKERS)
